@@ -348,7 +348,17 @@ func (rn *runner) bigWrapCase(g *gen) {
 			base := 2 + int(k%35)
 			return x.Text(base) + "/" + string(x.Append(nil, base)) + " " + bx.Text(base) + "/" + string(bx.Append(nil, base))
 		case "Bytes":
-			return fmt.Sprintf("x%x x%x", x.Bytes(), bx.Bytes())
+			// ... and FillBytes / SetBytes with a REUSED buffer that still holds other bytes and is longer than the
+			// value needs (math/big zero-extends; a too short buffer panics in both)
+			need := (bx.BitLen() + 7) / 8
+			buf1, buf2 := make([]byte, need+int(k%9)), make([]byte, need+int(k%9))
+			for i := range buf1 {
+				buf1[i], buf2[i] = byte(0xa0+i), byte(0xa0+i)
+			}
+			f1, f2 := x.FillBytes(buf1), bx.FillBytes(buf2)
+			var sb apd.BigInt
+			sb.SetBytes(f1)
+			return fmt.Sprintf("x%x/x%x/%s x%x/x%x/%s", x.Bytes(), f1, sb.String(), bx.Bytes(), f2, new(big.Int).SetBytes(f2).String())
 		case "TrailingZeroBits":
 			return fmt.Sprintf("%d %d", x.TrailingZeroBits(), bx.TrailingZeroBits())
 		case "SetString":
